@@ -786,7 +786,7 @@ def run(ctx):
         for r in failed:
             ctx.log("proof obligations broke in %s" % r.failed_file)
         ctx.sample({"theorem": "C12_elementwise_pointwise", "statement": "forall V vbin op a c Ne nPg s, shape a = Ne::nPg::s -> (np_bcast s (shape c) = Some u -> fe op plain and plain op fe are FeArrays of shape Ne::nPg::u with res[e,p,K] = op(a[e,p,K|s], c[K|t]) in the written order) /\\ (None -> ValueError)", "assumptions": "closed under the global context"})
-    n, cap = (1500, 1200) if ctx.tier == "quick" else (8000, 2500)
+    n, cap = (2000, 1200) if ctx.tier == "quick" else (8000, 2500)
     nviol0 = len(ctx.violations)
     if gen is None:
         # the case files need the generated closed forms; without them only report the translator failure
